@@ -15,11 +15,7 @@ pub mod roles;
 pub mod selftest;
 pub mod src;
 pub mod stubs;
-pub mod c05 {
-    pub const BIN_NAMES: [&str; 0] = [];
-    pub const UN_NAMES: [&str; 0] = [];
-    pub const FUNC_NAMES: [&str; 0] = [];
-}
+pub mod c05;
 
 use src::Src;
 
@@ -379,4 +375,24 @@ harnesses! {
     c04_wide_breq { prop: C04, feat: "c04", tier: thorough, mode: leaf, unwind: 3, caps: "drop=1" } => |s| insn::c04_rej(s, 78, 79, true);
     c04_wide_brbs { prop: C04, feat: "c04", tier: thorough, mode: leaf, unwind: 3, caps: "drop=1" } => |s| insn::c04_rej(s, 96, 97, true);
     c04_wide_sec { prop: C04, feat: "c04", tier: thorough, mode: leaf, unwind: 3, caps: "drop=1" } => |s| insn::c04_rej(s, 98, 99, true);
+    // ---- C05: the real Expr::run vs the reference evaluator (operands full 64-bit unless stated)
+    c05_bin_addsub { prop: C05, feat: "c05", tier: quick, mode: full, unwind: 3, caps: "run=2,clone=1,drop=2" } => |s| c05::ev_bin(s, 0, 2, 64);
+    c05_bin_bits { prop: C05, feat: "c05", tier: quick, mode: full, unwind: 3, caps: "run=2,clone=1,drop=2" } => |s| c05::ev_bin(s, 5, 8, 64);
+    c05_bin_shift { prop: C05, feat: "c05", tier: quick, mode: full, unwind: 3, caps: "run=2,clone=1,drop=2" } => |s| c05::ev_bin(s, 8, 10, 64);
+    c05_bin_cmp { prop: C05, feat: "c05", tier: quick, mode: full, unwind: 3, caps: "run=2,clone=1,drop=2" } => |s| c05::ev_bin(s, 10, 16, 64);
+    c05_bin_logic { prop: C05, feat: "c05", tier: quick, mode: full, unwind: 3, caps: "run=2,clone=1,drop=2" } => |s| c05::ev_bin(s, 16, 18, 64);
+    c05_bin_mul24 { prop: C05, feat: "c05", tier: quick, mode: full, unwind: 3, caps: "run=2,clone=1,drop=2" } => |s| c05::ev_bin(s, 2, 3, 24);
+    c05_bin_div24 { prop: C05, feat: "c05", tier: quick, mode: full, unwind: 3, caps: "run=2,clone=1,drop=2" } => |s| c05::ev_bin(s, 3, 4, 24);
+    c05_bin_rem24 { prop: C05, feat: "c05", tier: quick, mode: full, unwind: 3, caps: "run=2,clone=1,drop=2" } => |s| c05::ev_bin(s, 4, 5, 24);
+    c05_bin_mul64 { prop: C05, feat: "c05", tier: thorough, mode: full, unwind: 3, caps: "run=2,clone=1,drop=2" } => |s| c05::ev_bin(s, 2, 3, 64);
+    c05_bin_div64 { prop: C05, feat: "c05", tier: thorough, mode: full, unwind: 3, caps: "run=2,clone=1,drop=2" } => |s| c05::ev_bin(s, 3, 4, 64);
+    c05_bin_rem64 { prop: C05, feat: "c05", tier: thorough, mode: full, unwind: 3, caps: "run=2,clone=1,drop=2" } => |s| c05::ev_bin(s, 4, 5, 64);
+    c05_un { prop: C05, feat: "c05", tier: quick, mode: full, unwind: 3, caps: "run=2,clone=1,drop=2" } => |s| c05::ev_un(s);
+    c05_func_sel { prop: C05, feat: "c05", tier: quick, mode: full, unwind: 7, caps: "run=2,clone=1,drop=2" } => |s| c05::ev_func(s, 0, 7, 64);
+    c05_func_exp2 { prop: C05, feat: "c05", tier: quick, mode: full, unwind: 7, caps: "run=2,clone=1,drop=2" } => |s| c05::ev_func(s, 7, 8, 64);
+    c05_func_page_log2 { prop: C05, feat: "c05", tier: quick, mode: full, unwind: 10, caps: "run=2,clone=1,drop=2" } => |s| c05::ev_func(s, 8, 10, 8);
+    c05_ident { prop: C05, feat: "c05", tier: quick, mode: full, unwind: 3, caps: "run=1,clone=1,drop=1" } => |s| c05::ev_ident(s);
+    c05_leaf_equiv { prop: C05, feat: "c05", tier: quick, mode: full, unwind: 4, caps: "run=1,clone=1,drop=1" } => |s| c05::leaf_equiv(s);
+    c05_nest_left { prop: C05, feat: "c05", tier: thorough, mode: full, unwind: 3, caps: "run=3,clone=1,drop=3" } => |s| c05::ev_nest(s, 0);
+    c05_nest_right { prop: C05, feat: "c05", tier: thorough, mode: full, unwind: 3, caps: "run=3,clone=1,drop=3" } => |s| c05::ev_nest(s, 1);
 }
